@@ -119,7 +119,8 @@ type ALit struct {
 	Kind  string // int | bool | time | str
 	Canon string // canonical decoded value: decimal / true|false / unix ns / the string
 	JSON  any    // one JSON spelling (RawNum, string, bool, OObj value object)
-	Alts  []any  // other spellings with the same meaning
+	Alts  []any  // other spellings that give the same RDF lexical form (JSON number spellings etc.)
+	LexAlts []any // spellings with a different lexical form but the same value ("5.0" for "5", another UTC offset, "1" for true)
 }
 
 type AVal struct {
@@ -288,7 +289,7 @@ func (g *DocGen) litFor(dt string) *ALit {
 			}
 		}
 		s := v.String()
-		l := &ALit{DT: dt, Kind: "int", Canon: s, JSON: s, Alts: []any{s + ".0"}}
+		l := &ALit{DT: dt, Kind: "int", Canon: s, JSON: s, LexAlts: []any{s + ".0"}}
 		if v.IsInt64() && v.Int64() > -(1<<53) && v.Int64() < (1<<53) {
 			l.Alts = append(l.Alts, RawNum(s), RawNum(s+".0"), RawNum(s+"e0"))
 			if r.Bool() {
@@ -300,9 +301,9 @@ func (g *DocGen) litFor(dt string) *ALit {
 		b := r.Bool()
 		l := &ALit{DT: dt, Kind: "bool", Canon: strconv.FormatBool(b), JSON: b, Alts: []any{strconv.FormatBool(b)}}
 		if b {
-			l.Alts = append(l.Alts, "1", RawNum("1"))
+			l.LexAlts = append(l.LexAlts, "1", RawNum("1"))
 		} else {
-			l.Alts = append(l.Alts, "0", RawNum("0"))
+			l.LexAlts = append(l.LexAlts, "0", RawNum("0"))
 		}
 		return l
 	case local == "dateTime":
@@ -320,21 +321,18 @@ func (g *DocGen) litFor(dt string) *ALit {
 		for _, off := range []int{330, -480, 60} {
 			tz := t.In(time.FixedZone("", off*60))
 			if tz.Year() >= 0 && tz.Year() <= 9999 {
-				l.Alts = append(l.Alts, tz.Format(time.RFC3339Nano))
+				l.LexAlts = append(l.LexAlts, tz.Format(time.RFC3339Nano))
 			}
 		}
 		if t.Hour() == 0 && t.Minute() == 0 && t.Second() == 0 && t.Nanosecond() == 0 {
-			l.Alts = append(l.Alts, t.Format("2006-01-02"))
-		}
-		if r.Chance(30) {
-			l.JSON = l.Alts[r.Intn(len(l.Alts))]
+			l.LexAlts = append(l.LexAlts, t.Format("2006-01-02"))
 		}
 		return l
 	case local == "double":
 		f := float64(int64(r.Intn(1000000))-500000) / 64
 		c := ld.GetCanonicalDouble(f)
 		s := strconv.FormatFloat(f, 'f', -1, 64)
-		return &ALit{DT: dt, Kind: "str", Canon: c, JSON: RawNum(s), Alts: []any{s, RawNum(strconv.FormatFloat(f, 'e', -1, 64))}}
+		return &ALit{DT: dt, Kind: "str", Canon: c, JSON: RawNum(s), Alts: []any{RawNum(strconv.FormatFloat(f, 'e', -1, 64))}, LexAlts: []any{s}}
 	default:
 		s := g.str()
 		return &ALit{DT: dt, Kind: "str", Canon: s, JSON: s}
@@ -407,6 +405,9 @@ type Presentation struct {
 	singleArr bool
 	bn        int
 	prefix    string
+	lexAlt    int  // 0 never; 1 only on single-valued properties; 2 anywhere
+	usedArrayLexAlt bool // a lexical respelling was used inside a multi-valued property (or inside a member of one)
+	underMulti int
 }
 
 func (g *DocGen) termDef(t *Term, p *Presentation) any {
@@ -465,15 +466,26 @@ func (g *DocGen) contextObj(p *Presentation) OObj {
 	return c
 }
 
-func (g *DocGen) renderVal(v AVal, t *Term, p *Presentation) any {
+func (g *DocGen) renderVal(v AVal, t *Term, p *Presentation, multi bool) any {
+	multi = multi || p.underMulti > 0
 	switch {
 	case v.Lit != nil:
 		j := v.Lit.JSON
 		if p.altSpell && len(v.Lit.Alts) > 0 && p.r.Chance(60) {
 			j = v.Lit.Alts[p.r.Intn(len(v.Lit.Alts))]
 		}
+		if len(v.Lit.LexAlts) > 0 && (p.lexAlt == 2 || (p.lexAlt == 1 && !multi)) && p.r.Chance(50) {
+			j = v.Lit.LexAlts[p.r.Intn(len(v.Lit.LexAlts))]
+			if multi {
+				p.usedArrayLexAlt = true
+			}
+		}
 		return j
 	case v.Node != nil:
+		if multi {
+			p.underMulti++
+			defer func() { p.underMulti-- }()
+		}
 		return g.renderNode(v.Node, p)
 	default:
 		return v.Ref
@@ -502,7 +514,7 @@ func (g *DocGen) renderNode(n *ANode, p *Presentation) OObj {
 			sort.Ints(idx)
 		}
 		for _, i := range idx {
-			vals = append(vals, g.renderVal(f.Vals[i], f.Term, p))
+			vals = append(vals, g.renderVal(f.Vals[i], f.Term, p, len(f.Vals) > 1))
 		}
 		var v any = vals
 		if len(vals) == 1 && !(p.singleArr && p.r.Bool()) {
@@ -550,7 +562,7 @@ func plainPresentation(r *Rng) *Presentation {
 
 func randomPresentation(r *Rng) *Presentation {
 	return &Presentation{r: r, shuffle: true, ws: r.Bool(), altSpell: true, ctxMode: r.Intn(3), aliases: r.Bool(), labelBN: r.Bool(),
-		singleArr: true, prefix: r.Pick([]string{"b", "x", "node", "z9"})}
+		singleArr: true, prefix: r.Pick([]string{"b", "x", "node", "z9"}), lexAlt: 1}
 }
 
 // ---------- loader ----------
